@@ -39,6 +39,12 @@ pub fn install_panic_hook() {
             } else {
                 "<non-string panic payload>".into()
             };
+            // a refused allocation (C15 policy): attribute it to the requesting site in /repo
+            let location = if message.starts_with(super::alloc::REFUSED_MARKER) {
+                super::alloc::suspended(alloc_site)
+            } else {
+                location
+            };
             LAST_PANIC.with(|p| *p.borrow_mut() = Some(PanicInfo { location, message }));
             let quiet = QUIET.with(|q| *q.borrow());
             if !quiet {
@@ -105,6 +111,9 @@ pub struct Slice {
 /// Runs all case indices `i` with `i % count == index` and `i >= from`.
 pub fn run_worker(check: &dyn Check, tier: Tier, master: u64, slice: Slice, limit: Option<u64>) {
     install_panic_hook();
+    if check.arm_allocator() {
+        super::alloc::arm(true);
+    }
     let n = limit.unwrap_or_else(|| check.n_cases(tier)).min(check.n_cases(tier));
     let mut stats = Stats::default();
     let mut idx = slice.index;
@@ -140,4 +149,37 @@ pub fn run_worker(check: &dyn Check, tier: Tier, master: u64, slice: Slice, limi
         idx += slice.count;
     }
     raw_line(&format!("D {}", serde_json::to_string(&stats).unwrap()));
+}
+
+/// The first frame under /repo/ of the current stack, found by symbolising a captured backtrace.
+/// Symbolisation costs ~0.1 s, so results are cached by a hash of the raw return addresses.
+fn alloc_site() -> String {
+    use std::collections::HashMap;
+    use std::sync::Mutex;
+    static CACHE: Mutex<Option<HashMap<u64, String>>> = Mutex::new(None);
+    let mut addrs = [std::ptr::null_mut::<libc::c_void>(); 40];
+    // SAFETY: glibc backtrace(3) fills at most `addrs.len()` return addresses
+    let n = unsafe { libc::backtrace(addrs.as_mut_ptr(), addrs.len() as i32) } as usize;
+    let mut h = super::prng::Fnv::new();
+    // skip the hook/handler frames at the top; keep the requesting call path
+    for a in addrs[..n].iter().skip(6).take(14) {
+        h.u64(*a as usize as u64);
+    }
+    let key = h.get();
+    if let Some(s) = CACHE.lock().unwrap().get_or_insert_with(HashMap::new).get(&key) {
+        return s.clone();
+    }
+    let bt = std::backtrace::Backtrace::force_capture().to_string();
+    let site = bt
+        .lines()
+        .filter_map(|l| l.trim().strip_prefix("at "))
+        .find(|l| l.starts_with("/repo/"))
+        .map(|l| l.to_string())
+        .unwrap_or_else(|| "<no /repo frame>".to_string());
+    CACHE
+        .lock()
+        .unwrap()
+        .get_or_insert_with(HashMap::new)
+        .insert(key, site.clone());
+    site
 }
